@@ -412,40 +412,92 @@ def D4(m, R):
     for base, sel, nargs in (('rgb', 2, ['r', 'g', 'b']), ('color256', 5, None)):
         f = m.fn('_AnsiControlFn.' + base)
         argnames = nargs or [f.params[0]]
-        # find the if/elif chain on `component`
-        chain = None
-        for st in f.body:
-            if isinstance(st, ast.If) and isinstance(st.test, ast.Compare) and norm(st.test.left) == 'component':
-                chain = st
-        if chain is None:
-            R.undecided(f, f.node, 'no dispatch on component found', construct='%s dispatch' % base)
-            continue
-        arms = {}
-        cur = chain
-        while True:
-            t = cur.test
-            comp = None
-            if isinstance(t, ast.Compare) and len(t.ops) == 1 and isinstance(t.ops[0], (ast.Eq, ast.Is)) and norm(t.left) == 'component':
+        # specialise the body for each value of `component`: decide every test that mentions it, follow the path to the return,
+        # resolving locals chosen by a conditional expression on the way (any if / elif / early-return / lookup shape)
+        def decide(t, member):
+            if isinstance(t, ast.BoolOp):
+                vs = [decide(x, member) for x in t.values]
+                if isinstance(t.op, ast.And):
+                    return False if False in vs else (None if None in vs else True)
+                return True if True in vs else (None if None in vs else False)
+            if isinstance(t, ast.UnaryOp) and isinstance(t.op, ast.Not):
+                v = decide(t.operand, member)
+                return None if v is None else not v
+            if isinstance(t, ast.Compare) and len(t.ops) == 1 and 'component' in (norm(t.left), norm(t.comparators[0])):
+                other = t.comparators[0] if norm(t.left) == 'component' else t.left
+                op = t.ops[0]
+                if isinstance(op, (ast.In, ast.NotIn)) and isinstance(other, (ast.Tuple, ast.List, ast.Set)) and norm(t.left) == 'component':
+                    names = []
+                    for x in other.elts:
+                        try:
+                            r_ = F.fold(x)
+                        except Unfoldable:
+                            return None
+                        if not isinstance(r_, EnumRef):
+                            return None
+                        names.append(r_.name)
+                    return (member in names) if isinstance(op, ast.In) else (member not in names)
                 try:
-                    ref = F.fold(t.comparators[0])
-                    comp = ref.name if isinstance(ref, EnumRef) else None
+                    ref = F.fold(other)
                 except Unfoldable:
-                    pass
-            if comp is None:
-                R.undecided(f, cur, 'dispatch test %s not understood' % short(t), construct='%s dispatch' % base)
-                arms = None
-                break
-            arms[comp] = cur.body
-            if len(cur.orelse) == 1 and isinstance(cur.orelse[0], ast.If):
-                cur = cur.orelse[0]
-                continue
-            rest = [c for c in comp_members if c not in arms]
-            if len(rest) == 1:
-                arms[rest[0]] = cur.orelse
-            else:
-                arms['<else>'] = cur.orelse
-            break
-        if arms is None:
+                    return None
+                if not isinstance(ref, EnumRef):
+                    return None
+                if isinstance(op, (ast.Eq, ast.Is)):
+                    return ref.name == member
+                if isinstance(op, (ast.NotEq, ast.IsNot)):
+                    return ref.name != member
+            return None
+
+        def specialise(stmts, member, env):
+            """-> the Return reached for this member (or None when the list ends); Undecided when a test on component is not understood"""
+            for st in stmts:
+                if isinstance(st, ast.If):
+                    mentions = 'component' in names_in(st.test)
+                    v = decide(st.test, member) if mentions else None
+                    if v is None:
+                        if mentions or any(isinstance(x, ast.Return) for x in ast.walk(st)):
+                            if mentions:
+                                raise Undecided('dispatch test %s not understood' % short(st.test))
+                            raise Undecided('a return under %s' % short(st.test))
+                        continue
+                    r_ = specialise(st.body if v else st.orelse, member, env)
+                    if r_ is not None:
+                        return r_
+                elif isinstance(st, ast.Return):
+                    return st
+                elif isinstance(st, ast.Assign) and len(st.targets) == 1 and isinstance(st.targets[0], ast.Name):
+                    v_ = st.value
+                    while isinstance(v_, ast.IfExp) and 'component' in names_in(v_.test):
+                        d_ = decide(v_.test, member)
+                        if d_ is None:
+                            raise Undecided('selection %s not understood' % short(v_.test))
+                        v_ = v_.body if d_ else v_.orelse
+                    if isinstance(v_, ast.Subscript) and norm(v_.slice) == 'component' and isinstance(v_.value, ast.Dict):
+                        for k_, x_ in zip(v_.value.keys, v_.value.values):
+                            try:
+                                if isinstance(F.fold(k_), EnumRef) and F.fold(k_).name == member:
+                                    v_ = x_
+                            except Unfoldable:
+                                pass
+                    if st.targets[0].id not in ('r', 'g', 'b') + tuple(f.params):
+                        env[st.targets[0].id] = subst(v_, env)
+            return None
+        from ..finite import Undecided
+        from ..shapes import subst
+        arms = {}
+        chain = f.node
+        try:
+            for cm_ in comp_members:
+                env_ = {}
+                r_ = specialise(f.body, cm_, env_)
+                if r_ is not None:
+                    arms[cm_] = [ast.copy_location(ast.Return(value=subst(r_.value, env_)), r_)]
+        except Undecided as ex:
+            R.undecided(f, f.node, str(ex), construct='%s dispatch' % base)
+            continue
+        if not arms:
+            R.undecided(f, f.node, 'no dispatch on component found', construct='%s dispatch' % base)
             continue
         want = {
             'FOREGROUND': [(38, sel)], 'BACKGROUND': [(48, sel)],
@@ -455,7 +507,7 @@ def D4(m, R):
             cons = '%s dispatch %s' % (base, comp)
             body = arms.get(comp)
             if body is None:
-                R.viol(f, chain, 'component %s has no arm of its own (else stands for %s)' % (comp, [k for k in arms if k not in want or True]), construct=cons)
+                R.viol(f, chain, 'nothing is returned for component %s' % comp, construct=cons)
                 continue
             rets = [s for s in body if isinstance(s, ast.Return)]
             if len(rets) != 1 or not isinstance(rets[0].value, ast.List):
